@@ -383,7 +383,19 @@ class V:
         if s is None or not s[0].iszero():
             return None
         if not a.d.isconst():
-            return None
+            # exact division by a monomial denominator
+            if len(a.d.t) != 1:
+                return None
+            (dk, dc), = a.d.t.items()
+            dd = dict(dk)
+            out = {}
+            for k, c in s[1].t.items():
+                kd = dict(k)
+                if any(kd.get(at, 0) < e for at, e in dd.items()):
+                    return None
+                nk = tuple(sorted((at, e - dd.get(at, 0)) for at, e in kd.items() if e - dd.get(at, 0) > 0))
+                out[nk] = c * dc.inv()
+            return Poly(out)
         return s[1].scale(a.d.constval().inv())
 
     def sqrt(a):
